@@ -117,6 +117,8 @@ func main() {
 		}
 		if *tier == "thorough" {
 			runThorough(u, *repo, pc, c, *verif)
+		} else if arch386Quick[id] {
+			thorough386(u, *repo, pc, c, *verif)
 		}
 		od := *verif
 		if *outDir != "" {
